@@ -170,6 +170,11 @@ func init() {
 		fmt.Println("global refs stored", ruleGlobalShared(c, r, libPrefix, nil))
 		fmt.Println("x[:0] refills", ruleReuseFieldStorage(c, r, nil))
 		fmt.Println("quotients multiplied", ruleDivBeforeMul(c, r, nil))
+		fmt.Println("down-counting indices", ruleG3D(c, r, nil))
+		fmt.Println("sums in bounds tests", ruleGOVF(c, r, nil))
+		fmt.Println("unsigned differences", ruleNegConv(c, r, nil))
+		fmt.Println("methods on copies", ruleCopyMutated(c, r, nil))
+		fmt.Println("struct overwrites", ruleStructOverwrite(c, r, nil))
 		fmt.Println("appends to params", ruleAppendToParam(c, r, libPrefix, nil))
 		for _, o := range r.Obls {
 			fmt.Println(o.Status, o.Key, o.Pos, o.Detail)
@@ -181,6 +186,7 @@ func init() {
 			ruleAppendAlias(fc, r2, nil)
 			ruleLoopBufferAlias(fc, r2, nil)
 			ruleNilMapUpdate(fc, r2, nil)
+			ruleGOVF(fc, r2, nil)
 			for _, o := range r2.Obls {
 				fmt.Println("FIXTURE", o.Status, o.Key)
 			}
@@ -1429,6 +1435,264 @@ func ruleSignedMod(c *Ctx, r *Report, scope func(*ssa.Function) bool) int {
 					r.OK("L-SIGNEDMOD", key, c.Pos(bo.Pos()), fmt.Sprintf("the dividend carries the bias +%d", lf.k))
 				} else {
 					r.Bad("L-SIGNEDMOD", key, c.Pos(bo.Pos()), fmt.Sprintf("a signed value that includes a signed Exp-Golomb delta is reduced modulo %d without a bias of at least %d: a negative sum gives a negative result", ms[0], ms[0]))
+				}
+			}
+		}
+	}
+	return n
+}
+
+// ruleAddChildAppends (T-ADDCHILD): every AddChild method of a type with a Children field stores to Children on every
+// path that returns: a child handed to AddChild and only remembered in a typed field (or dropped by an early return)
+// is not written by Encode, which walks Children.
+func ruleAddChildAppends(c *Ctx, r *Report) int {
+	n := 0
+	for _, f := range libFuncs(c, func(f *ssa.Function) bool { return strings.HasPrefix(SSAFuncName(f), "mp4.") }) {
+		if f.Name() != "AddChild" || f.Signature.Recv() == nil || len(f.Params) == 0 || len(f.Blocks) == 0 {
+			continue
+		}
+		if fieldIndexByName(f.Signature.Recv().Type(), "Children") < 0 {
+			continue
+		}
+		n++
+		key := SSAFuncName(f) + ":children-on-every-path"
+		stores := map[*ssa.BasicBlock]bool{}
+		for _, b := range f.Blocks {
+			for _, ins := range b.Instrs {
+				if st, ok := ins.(*ssa.Store); ok {
+					if fa, ok := st.Addr.(*ssa.FieldAddr); ok && fieldNameOf(fa) == "Children" {
+						stores[b] = true
+					}
+				}
+				// a helper on the same receiver that stores Children (e.g. an embedded container's AddChild)
+				if call, ok := ins.(*ssa.Call); ok {
+					if cal := call.Call.StaticCallee(); cal != nil && cal != f && cal.Name() == "AddChild" {
+						stores[b] = true
+					}
+				}
+			}
+		}
+		seen := map[*ssa.BasicBlock]bool{}
+		stack := []*ssa.BasicBlock{f.Blocks[0]}
+		var escape *ssa.BasicBlock
+		for len(stack) > 0 && escape == nil {
+			x := stack[len(stack)-1]
+			stack = stack[:len(stack)-1]
+			if seen[x] || stores[x] {
+				continue
+			}
+			seen[x] = true
+			if len(x.Instrs) > 0 {
+				if _, isRet := x.Instrs[len(x.Instrs)-1].(*ssa.Return); isRet {
+					escape = x
+				}
+			}
+			stack = append(stack, x.Succs...)
+		}
+		if escape != nil {
+			r.Bad("T-ADDCHILD", key, c.Pos(firstPos(escape)), "AddChild can return without having stored the child list: the box is accepted but Encode, which walks Children, never writes it")
+		} else {
+			r.OK("T-ADDCHILD", key, c.Pos(f.Pos()), "every path to a return stores Children")
+		}
+	}
+	return n
+}
+
+func fieldIndexByName(t types.Type, name string) int {
+	if p, ok := t.Underlying().(*types.Pointer); ok {
+		t = p.Elem()
+	}
+	st, ok := t.Underlying().(*types.Struct)
+	if !ok {
+		return -1
+	}
+	for i := 0; i < st.NumFields(); i++ {
+		if st.Field(i).Name() == name {
+			return i
+		}
+	}
+	return -1
+}
+
+// receiverWrites: the method stores through its pointer receiver.
+func receiverWrites(f *ssa.Function) bool {
+	if f == nil || len(f.Params) == 0 || f.Signature.Recv() == nil {
+		return false
+	}
+	if _, ok := f.Signature.Recv().Type().Underlying().(*types.Pointer); !ok {
+		return false
+	}
+	recv := f.Params[0]
+	for _, b := range f.Blocks {
+		for _, ins := range b.Instrs {
+			if st, ok := ins.(*ssa.Store); ok {
+				if fa, ok := st.Addr.(*ssa.FieldAddr); ok && fa.X == ssa.Value(recv) {
+					return true
+				}
+			}
+		}
+	}
+	return false
+}
+
+// ruleCopyMutated (L-COPYMUT): a struct value copied out of a field or element into a local (`rec := box.Rec`) on which
+// a pointer-receiver method that stores through its receiver is then called, and which is not looked at afterwards
+// (not read, stored back, passed on or returned): the update lands in the copy and is lost.
+func ruleCopyMutated(c *Ctx, r *Report, scope func(*ssa.Function) bool) int {
+	n := 0
+	for _, f := range libFuncs(c, scope) {
+		idx := 0
+		for _, b := range f.Blocks {
+			for _, ins := range b.Instrs {
+				al, ok := ins.(*ssa.Alloc)
+				if !ok {
+					continue
+				}
+				if _, isStruct := al.Type().Underlying().(*types.Pointer).Elem().Underlying().(*types.Struct); !isStruct {
+					continue
+				}
+				// initialised by copying existing storage
+				var init *ssa.Store
+				for _, ref := range *al.Referrers() {
+					if st, ok := ref.(*ssa.Store); ok && st.Addr == ssa.Value(al) {
+						if ld, ok := st.Val.(*ssa.UnOp); ok && ld.Op == token.MUL {
+							switch ld.X.(type) {
+							case *ssa.FieldAddr, *ssa.IndexAddr:
+								init = st
+							}
+						}
+					}
+				}
+				if init == nil {
+					continue
+				}
+				for _, ref := range *al.Referrers() {
+					call, ok := ref.(*ssa.Call)
+					if !ok || len(call.Call.Args) == 0 || call.Call.Args[0] != ssa.Value(al) {
+						continue
+					}
+					cal := call.Call.StaticCallee()
+					if !receiverWrites(cal) {
+						continue
+					}
+					n++
+					idx++
+					key := fmt.Sprintf("%s:%s.%s on a copy#%d", SSAFuncName(f), al.Comment, cal.Name(), idx)
+					usedAfter := false
+					for _, r2 := range *al.Referrers() {
+						i2, ok := r2.(ssa.Instruction)
+						if !ok || i2 == ssa.Instruction(call) || i2 == ssa.Instruction(init) {
+							continue
+						}
+						if _, isDbg := i2.(*ssa.DebugRef); isDbg {
+							continue
+						}
+						if insBefore(call, i2) || (!insBefore(i2, call) && i2.Block() != call.Block()) {
+							usedAfter = true
+						}
+					}
+					if usedAfter {
+						r.OK("L-COPYMUT", key, c.Pos(call.Pos()), "the modified copy is used afterwards")
+					} else {
+						r.Bad("L-COPYMUT", key, c.Pos(call.Pos()), fmt.Sprintf("%s is a copy of a field or element; %s changes the copy through its pointer receiver and the copy is never looked at again: the update is lost", al.Comment, cal.Name()))
+					}
+				}
+			}
+		}
+	}
+	return n
+}
+
+// ruleStructOverwrite (L-DEADFIELD): a field of a local struct variable is assigned and, on a path with no read of
+// the variable in between, the whole variable is then overwritten (x.f = v; …; x = T{…}): what was computed into the
+// field is thrown away.
+func ruleStructOverwrite(c *Ctx, r *Report, scope func(*ssa.Function) bool) int {
+	n := 0
+	for _, f := range libFuncs(c, scope) {
+		reach := blockReach(f)
+		idx := 0
+		for _, b := range f.Blocks {
+			for _, ins := range b.Instrs {
+				al, ok := ins.(*ssa.Alloc)
+				if !ok {
+					continue
+				}
+				if _, isStruct := al.Type().Underlying().(*types.Pointer).Elem().Underlying().(*types.Struct); !isStruct {
+					continue
+				}
+				var fieldStores, wholeStores []*ssa.Store
+				reads := map[*ssa.BasicBlock][]ssa.Instruction{}
+				for _, ref := range *al.Referrers() {
+					switch x := ref.(type) {
+					case *ssa.Store:
+						if x.Addr == ssa.Value(al) {
+							wholeStores = append(wholeStores, x)
+						}
+					case *ssa.FieldAddr:
+						for _, r2 := range *x.Referrers() {
+							switch y := r2.(type) {
+							case *ssa.Store:
+								if y.Addr == ssa.Value(x) {
+									fieldStores = append(fieldStores, y)
+								} else {
+									reads[y.Block()] = append(reads[y.Block()], y)
+								}
+							case *ssa.DebugRef:
+							default:
+								if i3, ok := r2.(ssa.Instruction); ok {
+									reads[i3.Block()] = append(reads[i3.Block()], i3)
+								}
+							}
+						}
+					case *ssa.DebugRef:
+					default:
+						if i3, ok := ref.(ssa.Instruction); ok {
+							reads[i3.Block()] = append(reads[i3.Block()], i3)
+						}
+					}
+				}
+				if len(fieldStores) == 0 || len(wholeStores) == 0 {
+					continue
+				}
+				for _, ws := range wholeStores {
+					// the zero-value / initial store at declaration comes first and overwrites nothing
+					for _, fs := range fieldStores {
+						if !(insBefore(fs, ws) || (fs.Block() != ws.Block() && reach[fs.Block()][ws.Block()])) {
+							continue
+						}
+						n++
+						idx++
+						key := fmt.Sprintf("%s:%s overwritten after field store#%d", SSAFuncName(f), al.Comment, idx)
+						// a read between the two on the way (block granularity; same-block order respected)
+						readBetween := false
+						for rb, list := range reads {
+							for _, ri := range list {
+								switch {
+								case rb == fs.Block() && rb == ws.Block():
+									if insBefore(fs, ri) && insBefore(ri, ws) {
+										readBetween = true
+									}
+								case rb == fs.Block():
+									if insBefore(fs, ri) {
+										readBetween = true
+									}
+								case rb == ws.Block():
+									if insBefore(ri, ws) {
+										readBetween = true
+									}
+								default:
+									if reach[fs.Block()][rb] && reach[rb][ws.Block()] {
+										readBetween = true
+									}
+								}
+							}
+						}
+						if readBetween {
+							r.OK("L-DEADFIELD", key, c.Pos(ws.Pos()), "the variable is read between the field assignment and the overwrite")
+						} else {
+							r.Bad("L-DEADFIELD", key, c.Pos(ws.Pos()), fmt.Sprintf("a field of %s is assigned at %s and the whole variable is overwritten here with no read in between: the assigned value is thrown away", al.Comment, c.Pos(fs.Pos())))
+						}
+					}
 				}
 			}
 		}
